@@ -204,7 +204,13 @@ func init() {
 			if json.Unmarshal(raw, &probe) != nil {
 				continue
 			}
-			if _, ok := probe["direct"]; ok {
+			if _, ok := probe["ptdup"]; ok {
+				var s c03PtDupScn
+				if json.Unmarshal(raw, &s) == nil && len(s.Rounds) > 0 {
+					obs, mons := c03PtDupRun(&s)
+					c.Emit(s, obs, mons, "corpus")
+				}
+			} else if _, ok := probe["direct"]; ok {
 				var s c03DirectScn
 				if json.Unmarshal(raw, &s) == nil && len(s.Steps) > 0 {
 					obs, mons := c03DirectRun(s)
@@ -231,7 +237,11 @@ func init() {
 			}
 		}
 		for i := 0; i < c.N; i++ {
-			if i%6 == 5 {
+			if i%12 == 11 {
+				s, cls := c03PtDupGen(c.Rng)
+				obs, mons := c03PtDupRun(&s)
+				c.Emit(s, obs, mons, cls)
+			} else if i%6 == 5 {
 				s, cls := c03DirectGen(c.Rng)
 				obs, mons := c03DirectRun(s)
 				c.Emit(s, obs, mons, cls)
